@@ -124,6 +124,7 @@ type Node struct {
 	nDial    int
 	nUDP     int
 	nMcast   int
+	udpBlack bool // datagrams addressed to this node are dropped (udp.blackhole)
 	nextPort int
 	vanished bool
 }
@@ -1152,6 +1153,11 @@ func (n *Net) deliverDgram(src *UDPSock, from, to *net.UDPAddr, data []byte) {
 	}
 	n.mu.Lock()
 	dst, ok := n.udp[to.String()]
+	if ok && dst.node.udpBlack {
+		n.stat("udp.blackhole")
+		n.mu.Unlock()
+		return
+	}
 	if !ok || dst.closed || dst.node.vanished {
 		n.stat("udp.noport")
 		n.mu.Unlock()
@@ -1234,6 +1240,16 @@ func (n *Net) partUntilIP(a string, ip net.IP) (time.Time, bool) {
 		return n.partUntil(a, nd.Name)
 	}
 	return time.Time{}, false
+}
+
+// BlackholeUDPTo drops every datagram addressed to a node (a firewall that lets the TCP control
+// connection through and nothing else).
+func (n *Net) BlackholeUDPTo(name string) {
+	n.mu.Lock()
+	defer n.mu.Unlock()
+	if nd := n.nodes[name]; nd != nil {
+		nd.udpBlack = true
+	}
 }
 
 // Vanish makes a node disappear silently: its sockets stop sending and
